@@ -188,6 +188,43 @@ func (fc *FnCtx) evalCall(st *State, c *ast.CallExpr, stmt bool) Val {
 			return fc.applyOnCall(st, oc, c, args, resT, name)
 		}
 		fc.onCallRequires(st, oc, c, args, name)
+		if len(oc.Effects) > 0 {
+			// `also` with ghost effects: the callee's own contract (or the unknown-call rule) decides what happens to
+			// the real state, the declared effects update the caller's ghosts (RHS evaluated in the pre-state;
+			// results of the call are not visible to them)
+			bind := map[string]Val{}
+			for i, p := range oc.Params {
+				if p != "_" && i < len(args) {
+					bind[p] = args[i]
+				}
+			}
+			pre := st.clone()
+			type upd struct {
+				name string
+				v    Val
+			}
+			var upds []upd
+			for _, ef := range oc.Effects {
+				if _, isGhost := st.ghost[ef.Target]; !isGhost {
+					panic(unsupported("effect on undeclared ghost " + ef.Target))
+				}
+				if ef.Expr == nil {
+					upds = append(upds, upd{ef.Target, fc.havocLike(st.ghost[ef.Target], "g_"+ef.Target)})
+					continue
+				}
+				upds = append(upds, upd{ef.Target, fc.specVal(st, ef.Expr, &specEnv{fc: fc, st: pre, old: fc.entry, bind: bind, at: c.Pos(), scopeNode: c})})
+			}
+			var r Val
+			if ct := fc.lookupContract(name, pkgPath); ct != nil && fn != nil {
+				r = fc.applyContract(st, ct, fn, c.Pos(), args)
+			} else {
+				r = fc.unknownCall(st, c, name, pkgPath, fn, args, resT)
+			}
+			for _, u := range upds {
+				st.ghost[u.name] = fc.nameVal(u.v, "g_"+u.name)
+			}
+			return r
+		}
 	}
 	// 2. callee contract
 	if ct := fc.lookupContract(name, pkgPath); ct != nil && fn != nil {
@@ -741,6 +778,10 @@ func (fc *FnCtx) applyModifies(st *State, ct *FuncContract, bind map[string]Val,
 			// a slice parameter: only the cells of its capacity window [off, off+cap) may be written
 			wins = append(wins, heapWindow{x.Rgn, x.Off, fc.define(add(x.Off, x.Cap), "whi")})
 		case VPtr:
+			if l != nil && len(l.path) > 0 {
+				// a pointer-typed field: the field itself may be reassigned (and, below, what it pointed at written)
+				fc.storeLoc(st, *l, fc.freshVal(l.typ, "mod"))
+			}
 			pl := fc.ptrLoc(st, x)
 			fc.storeLoc(st, pl, fc.havocLike(fc.load(st, pl), "mod"))
 		default:
